@@ -12,6 +12,16 @@ def dispatch (op : String) (a : Array String) : Option String :=
       let fb := Gen.fOfBits a[0]!; let sb := Gen.fOfBits a[1]!; let he := Gen.fOfBits a[2]!; let ho := Gen.fOfBits a[3]!
       some ("s:" ++ Spec.selectCode fb sb he ho ++ " " ++ Gen.bitsOf (Spec.selectVal fb sb he ho))
     else none
+  | "spec.lookup" =>
+    -- spec.lookup <exLow> <exHigh> <tol> <n> k1 v1 … kn vn <query>
+    if a.size < 5 then none else
+    let n := (a[3]!).toNat!
+    if a.size != 5 + 2 * n then none else
+    let pts := (List.range n).map fun i => (Gen.fOfBits a[4 + 2 * i]!, Gen.fOfBits a[5 + 2 * i]!)
+    let t : InterpTable Float := { pts := pts, exLow := Gen.bOf a[0]!, exHigh := Gen.bOf a[1]!, tol := Gen.fOfBits a[2]! }
+    some (match t.lookup (Gen.fOfBits a[4 + 2 * n]!) with
+      | some v => Gen.bitsOf v
+      | none => "IndexError")
   | _ => none
 
 end Spec
